@@ -257,6 +257,121 @@ def shard_hub_history(seed, count):
 
 
 # ---------------------------------------------------------------------------------------------- (c) isolation
+# ---------------------------------------------------------------------------------------------- (e) interleavings finer than whole steps
+WINDOW = 0x50000
+
+
+def _window_class():
+    from armulator.armv6.memory_types import RAM
+
+    class StepWindow(RAM):
+        """an embedder-made device (lock-step co-simulation, a mailbox): every read of it lets a peer processor run one instruction"""
+        peer = None
+        busy = False
+        budget = 0
+
+        def read(self, address, size):
+            if self.peer is not None and not self.busy and self.budget > 0:
+                self.busy = True
+                self.budget -= 1
+                try:
+                    e = target.step_budget(self.peer)
+                    self.log.append((digest(target.snapshot(self.peer)), type(e).__name__ if e is not None else None))
+                finally:
+                    self.busy = False
+            return super().read(address, size)
+    return StepWindow
+
+
+def nested_case(rng, cfgname):
+    """processor A: loads (aligned and not, word / halfword / doubleword / multiple) from the window device and stores to its RAM; processor B: an
+    ordinary program with unaligned data pointers"""
+    thumb = False
+    words = []
+    for _ in range(24):
+        t_, b_, im_ = rng.randrange(8), rng.randrange(8), rng.randrange(16)
+        r = rng.random()
+        if r < 0.45:
+            words.append(0xE5900000 | (b_ << 16) | (t_ << 12) | im_)                                  # LDR Rt,[Rn,#imm] (any alignment)
+        elif r < 0.6:
+            words.append(0xE1D000B0 | (b_ << 16) | (t_ << 12) | ((im_ >> 4) << 8) | (im_ & 15))        # LDRH
+        elif r < 0.7:
+            words.append(0xE1C000D0 | (b_ << 16) | ((t_ & 6) << 12) | (im_ & 12))                      # LDRD
+        elif r < 0.8:
+            words.append(0xE8900000 | (b_ << 16) | (rng.getrandbits(8) or 1))                          # LDM
+        elif r < 0.9:
+            words.append(0xE5800000 | (8 << 16) | (t_ << 12) | ((im_ & 15) << 2))                      # STR Rt,[R8,#imm] (own RAM)
+        else:
+            words.append(0xE0800000 | (t_ << 12) | (b_ << 16) | rng.randrange(8))                      # ADD
+    code = b''.join(e1.enc_arm(w) for w in words)
+    a = gen.step_case(rng, cfgname, thumb, code, code_base=0x8000, e=rng.choice((0, 0, 1)), steps=1, mpu=False, mmu=False)
+    a['mems'].append([WINDOW, 0x100])
+    a['poke'].append([WINDOW, bytes(rng.getrandbits(8) for _ in range(0x100)).hex()])
+    st_ = a['state']
+    st_['sctlr'] = (st_.get('sctlr', 0) & ~2) | (1 << 22)                 # alignment checking off, unaligned support on (v6)
+    mode = gen.MODE_NAME[st_['cpsr'] & 31]
+    for n in range(8):
+        st_[gen.bank_key(n, mode)] = WINDOW + rng.randrange(0, 0xC0)
+    st_[gen.bank_key(8, mode)] = gen.DATA[0] + 4 * rng.randrange(0x20)
+    b = program_case(rng, cfgname)
+    sb = b['state']
+    sb['sctlr'] = (sb.get('sctlr', 0) & ~2) | (1 << 22)
+    modeb = gen.MODE_NAME[sb['cpsr'] & 31]
+    for n in range(8):
+        if rng.random() < 0.7:
+            sb[gen.bank_key(n, modeb)] = gen.DATA[0] + rng.randrange(0, 0xC0)
+    if not (sb['cpsr'] >> 5) & 1:
+        # B's program gets unaligned loads of its own
+        cb = bytearray(bytes.fromhex(b['poke'][0][1]))
+        for k_ in range(0, 40, 2):
+            cb[4 * k_:4 * k_ + 4] = e1.enc_arm(0xE5900000 | (rng.randrange(8) << 16) | (rng.randrange(8) << 12) | rng.randrange(16))
+        b['poke'][0][1] = bytes(cb).hex()
+    return a, b
+
+
+def nested_run(cfgname, a, b, nsteps, budget):
+    """returns (A alone, A with the peer stepping inside its reads, B's log from inside, B alone)"""
+    target.load_config(gen.CONFIGS[cfgname])
+    W = _window_class()
+
+    def build_a(peer):
+        cpu = e1.build(a)
+        mc = cpu.mem.memories[-1]
+        w = W(mc.mem.size)
+        w.memory_array[:] = mc.mem.memory_array
+        w.peer, w.budget, w.log = peer, (budget if peer is not None else 0), []
+        mc.mem = w
+        return cpu, w
+    ca, _ = build_a(None)
+    alone = step_trace(ca, nsteps)
+    cb = e1.build(b)
+    ca2, w = build_a(cb)
+    together = step_trace(ca2, nsteps)
+    b_alone = step_trace(e1.build(b), len(w.log))
+    return alone, together, w.log, b_alone
+
+
+def shard_nested(seed, count):
+    acc = Acc()
+    rng = random.Random(seed)
+    try:
+        for i in range(count):
+            cfgname = rng.choice(('v7', 'v7', 'v6', 'v7-virt'))
+            a, b = nested_case(rng, cfgname)
+            nsteps, budget = rng.randrange(3, 12), rng.randrange(1, 40)
+            alone, together, blog, b_alone = nested_run(cfgname, a, b, nsteps, budget)
+            acc.case(len(blog) >= 2, ('nested', cfgname, a['poke'][0][1], b['poke'][0][1], a['state']['cpsr'], nsteps, budget), cls='nested:peer-steps-inside-a-step:%s' % ('0-1' if len(blog) < 2 else '2-9' if len(blog) < 10 else '10+'),
+                     sample=lambda: {'cfg': cfgname, 'a_steps': nsteps, 'peer_steps_inside_reads': len(blog)})
+            if alone != together or blog != b_alone:
+                who = 'reader' if alone != together else 'peer'
+                acc.violation('C20:nested:%s-trace-depends-on-the-other-instance' % who, {'kind': 'nested', 'cfgname': cfgname, 'a': a, 'b': b, 'nsteps': nsteps, 'budget': budget},
+                              {'first_divergent_step_of_reader': next((k for k in range(nsteps) if alone[k] != together[k]), None),
+                               'first_divergent_step_of_peer': next((k for k in range(len(blog)) if blog[k] != b_alone[k]), None)})
+    finally:
+        target.load_config(None)
+    return acc
+
+
 class Diverged(Exception):
     pass
 
@@ -422,6 +537,7 @@ def run(ctx):
     tasks = [(shard_snapshot, (ctx.shard_seed(i), ctx.n(500, 5000))) for i in range(8)]
     tasks += [(shard_iso, (ctx.shard_seed(100 + i), ctx.n(120, 1500), ctx.n(25, 40), True)) for i in range(4)]
     tasks += [(shard_iso, (ctx.shard_seed(200 + i), ctx.n(120, 1500), ctx.n(25, 40), False)) for i in range(4)]
+    tasks += [(shard_nested, (ctx.shard_seed(500 + i), ctx.n(400, 8000))) for i in range(4)]
     tasks += [(shard_hub_history, (ctx.shard_seed(400 + i), ctx.n(1500, 30000))) for i in range(4)]
     tasks += [(shard_fresh, (c, ctx.shard_seed(300 + i), ctx.n(60, 1200))) for i, c in enumerate(CFGS)]
     ctx.pmap(_dispatch, tasks)
@@ -435,6 +551,12 @@ def replay(case, bucket=None):
     if 'history' in case:
         msg = replay_history([tuple(h) for h in case['history']], case.get('same_config', False))
         return [msg] if msg else []
+    if case.get('kind') == 'nested':
+        try:
+            alone, together, blog, b_alone = nested_run(case['cfgname'], case['a'], case['b'], case['nsteps'], case['budget'])
+        finally:
+            target.load_config(None)
+        return ['diverged'] if (alone != together or blog != b_alone) else []
     if case.get('kind') == 'hub':
         same, _ = hub_history_case(case['layout'], case['ops_a'], case['ops_b'], case['probe'])
         return [] if same else ['hub answers depend on the access history']
